@@ -21,7 +21,7 @@ def near(vals, d, lo, hi):
     return sorted(s)
 
 
-UTF8_GOOD = ['', 'a', 'héllo', '日本語', '🌐📦', '\u0080', '߿', 'ࠀ', '￿', '\U00010000', '\U0010ffff', 'a\x00b', '퟿', '']
+UTF8_GOOD = ['\ufffd', 'a\ufffdb', '\ufffe', '\ufeff', '', 'a', 'héllo', '日本語', '🌐📦', '\u0080', '߿', 'ࠀ', '￿', '\U00010000', '\U0010ffff', 'a\x00b', '퟿', '']
 UTF8_BAD = [b'\xff', b'\xc0\x80', b'\xc1\xbf', b'\xe0\x80\x80', b'\xe0\x9f\xbf', b'\xed\xa0\x80', b'\xed\xbf\xbf', b'\xf0\x80\x80\x80',
             b'\xf0\x8f\xbf\xbf', b'\xf4\x90\x80\x80', b'\xf5\x80\x80\x80', b'\xc2', b'\xe1\x80', b'\xf1\x80\x80', b'a\x80', b'\x80',
             b'\xc2\x7f', b'\xc2\xc0', b'\xe1\x80\x7f', b'\xf1\x80\x80\xc0', b'\xf8\x88\x80\x80\x80', b'ok\xfe']
@@ -32,7 +32,8 @@ def rutf8(rng, maxchars=6):
     out = ''
     for _ in range(rng.randrange(maxchars + 1)):
         c = rng.choice([rng.randrange(0, 0x80), rng.randrange(0x80, 0x800), rng.randrange(0x800, 0xd800),
-                        rng.randrange(0xe000, 0x10000), rng.randrange(0x10000, 0x110000)])
+                        rng.randrange(0xe000, 0x10000), rng.randrange(0x10000, 0x110000),
+                        rng.choice([0xfffd, 0xfffe, 0xffff, 0xfeff, 0xd7ff, 0xe000, 0x7f, 0x80, 0x7ff, 0x800, 0x10ffff])])
         out += chr(c)
     return out.encode('utf-8')
 
